@@ -1,4 +1,6 @@
 // native replay oracle for C01: PBF writer/reader pairs through the real Writer and Reader
+#include <osmium/io/xml_input.hpp>
+#include <osmium/io/xml_output.hpp>
 #include <osmium/io/pbf_input.hpp>
 #include <osmium/io/pbf_output.hpp>
 #include <osmium/io/reader.hpp>
@@ -86,6 +88,27 @@ static int check_blocksize(bool nodes) {
     return 0;
 }
 
+// changesets with and without tags / discussion / comments_count through the XML writer and reader
+static int check_xml_changeset() {
+    std::string fn = tmpname(".osm");
+    osmium::memory::Buffer buf{10240, osmium::memory::Buffer::auto_grow::yes};
+    struct C { bool tags; int comments; unsigned num_comments; } cases[] = {{false, 0, 0}, {true, 0, 0}, {false, 2, 0}, {false, 2, 2}, {true, 1, 0}, {true, 1, 1}};
+    long long id = 1;
+    for (const auto& c : cases) { { osmium::builder::ChangesetBuilder b{buf}; b.set_id(id++).set_uid(1).set_num_comments(c.num_comments).set_created_at(osmium::Timestamp{uint32_t(1000)}); b.set_user("u");
+        if (c.tags) { osmium::builder::TagListBuilder tl{b}; tl.add_tag("k", "v"); }
+        if (c.comments) { osmium::builder::ChangesetDiscussionBuilder db{b}; for (int i = 0; i < c.comments; ++i) { db.add_comment(osmium::Timestamp{uint32_t(2000 + i)}, 7, "w"); db.add_comment_text("text"); } } } buf.commit(); }
+    { osmium::io::File f{fn}; osmium::io::Writer w{f, osmium::io::overwrite::allow}; w(std::move(buf)); w.close(); }
+    osmium::io::Reader r{fn, osmium::osm_entity_bits::changeset}; size_t i = 0; int rc = 0;
+    while (auto b2 = r.read()) for (const auto& cs : b2.select<osmium::Changeset>()) {
+        if (i >= 6) { rc = 1; break; }
+        if (int(cs.discussion().size()) != cases[i].comments || (cs.tags().size() != 0) != cases[i].tags) {
+            std::printf("XML round trip: changeset %zu (tags: %d, %d comments, comments_count %u) comes back with %zu tags and %zu comments\nARGV: xmlchangeset\n", i + 1, cases[i].tags, cases[i].comments, cases[i].num_comments, cs.tags().size(), cs.discussion().size()); rc = 1; }
+        ++i; }
+    r.close(); ::unlink(fn.c_str());
+    if (!rc && i != 6) { std::printf("XML round trip: %zu of 6 changesets read back\nARGV: xmlchangeset\n", i); rc = 1; }
+    return rc;
+}
+
 template <typename TV, typename TD, typename RV> static int check_delta(std::mt19937_64& rng, const char* what, long long lo, long long hi) {
     osmium::util::DeltaEncode<TV, TD> e; osmium::util::DeltaDecode<RV, int64_t> d;
     for (int i = 0; i < 100000; ++i) { long long v = (rng() % 4 == 0) ? ((rng() % 2) ? lo : hi) : (lo + (long long)(rng() % (unsigned long long)(hi - lo + 1 > 0 ? hi - lo + 1 : 1000)));
@@ -96,6 +119,7 @@ template <typename TV, typename TD, typename RV> static int check_delta(std::mt1
 int main(int argc, char** argv) {
     std::string mode = argc > 1 ? argv[1] : "--search"; std::string only = argc > 3 ? argv[3] : ""; unsigned seed = argc > 2 ? unsigned(std::atoll(argv[2])) : 1; std::mt19937_64 rng(seed);
     if (mode == "box" && argc > 2) return check_box(int32_t(std::atoll(argv[2])), 5);
+    if (mode == "xmlchangeset") return check_xml_changeset();
     if (mode == "blocksize") return check_blocksize(false) || check_blocksize(true);
     if (mode == "densetags") return check_tags(true) || check_tags(false);
     if (mode == "dense" && argc > 4) return check_dense(argv[2], std::atoi(argv[3]), std::atoi(argv[4]));
@@ -105,6 +129,7 @@ int main(int argc, char** argv) {
     if (all || only.find("Dense") != std::string::npos || only.find("serialize") != std::string::npos)
         for (const char* md : {"all", "none", "version", "version+timestamp", "uid+user", "changeset"}) for (int h = 0; h < 2; ++h) for (int dn = 0; dn < 2; ++dn) if (check_dense(md, h, dn)) return 1;
     if (all || only.find("size") != std::string::npos || only.find("can_add") != std::string::npos) { if (check_blocksize(false) || check_blocksize(true)) return 1; }
+    if (all || only.find("xml") != std::string::npos || only.find("XML") != std::string::npos) { if (check_xml_changeset()) return 1; }
     if (all || only.find("add_node") != std::string::npos) { if (check_tags(true) || check_tags(false)) return 1; }
     if (all || only.find("delta") != std::string::npos) { if (check_delta<int64_t, int64_t, int64_t>(rng, "int64 ids", -(1LL << 62), (1LL << 62))) return 1; if (check_delta<uint32_t, int32_t, int64_t>(rng, "uid uint32/int32 -> int64", 0, 2147483647)) return 1; if (check_delta<uint32_t, int64_t, int64_t>(rng, "timestamp", 0, 4294967295LL)) return 1; }
     std::printf("search: no disagreement found\n"); return 0;
